@@ -243,8 +243,9 @@ pub fn shape_fingerprint(case: &WriterCase, rb: Option<&ReadBack>) -> u64 {
             Call::Creation(_) => {
                 d.u64(3);
             }
-            Call::Blob { data, pipe } => {
-                d.u64(4).u64((data.len % 1020) as u64).u64((data.len / 1020).min(4) as u64).str(pipe.name());
+            Call::Blob { data, pipe, fail_after } => {
+                d.u64(fail_after.map(|k| 40 + (k % 4) as u64).unwrap_or(4));
+                d.u64((data.len % 1020) as u64).u64((data.len / 1020).min(4) as u64).str(pipe.name());
             }
             Call::Pc { proto, steps, end, .. } => {
                 d.u64(5).u64(*end as u64);
